@@ -857,9 +857,9 @@ def check_sarif_case(res, fs, doc, where):
 
 
 def check_hang(ctx, res, exe, op, case, findings):
-    """an op the model predicts not to return: give the real code 3 s"""
+    """an op the model predicts not to return: give the real code 2 s"""
     try:
-        r = subprocess.run([exe], input=(op + "\n").encode(), stdout=subprocess.PIPE, stderr=subprocess.PIPE, timeout=3)
+        r = subprocess.run([exe], input=(op + "\n").encode(), stdout=subprocess.PIPE, stderr=subprocess.PIPE, timeout=2)
         res.oblig("correspondence:C3:toString-no-return", False, "correspondence", "the model predicts that toString does not return, the real code printed %r for op %s" % (r.stdout[:200], op[:300]))
         return False
     except subprocess.TimeoutExpired:
@@ -903,7 +903,9 @@ def run(ctx, res):
     core.prove(ctx, res, MODULES, THEOREMS)
     mark("prove")
     drv = ctx.driver("drv_c26")
-    exe = ctx.harness("c26")
+    # VERIF_C26_HARNESS: a harness linked against a hand-mutated copy of an anchored source file (mutation experiments
+    # of docs/C26.md, tools in corpus/C26/mutate.py); never set in a normal run
+    exe = os.environ.get("VERIF_C26_HARNESS") or ctx.harness("c26")
     mark("driver+harness")
     try:
         CRITICAL.update(extract_critical())
@@ -1047,7 +1049,7 @@ def run(ctx, res):
     rc, pre, err = core.run_lines(drv, [], ops, timeout=900)
     hang = [k for k in range(len(ops)) if k < len(pre) and pre[k] == "hang"]
     res.count("text:model-predicts-no-return", len(hang))
-    for k in hang[:2]:
+    for k in hang[:1]:
         check_hang(ctx, res, exe, ops[k], cases[k], findings)
     live = [k for k in range(len(ops)) if k not in set(hang)]
     ops = [ops[k] for k in live]
